@@ -380,3 +380,128 @@ CONTRACTS.append(Contract(
                                                              note="signal type record with this name")},
     dynamic_types={**_DYN, "self": {**_DYN["self"], "memory_types": ty.TObjMap(ty.Str, ty.TObj("MemoryInfo", only=("MemoryInfo",)))}},
     properties=("C14", "C13", "C03"), min_obligations=3, no_replay=True))
+
+
+# =================================================================================================
+# Result types of binary operators (C01: which signal a result is computed on; C14: Bundle OP Bundle is refused).
+#   _check_signal_type_compatibility   int OP int -> int; signal OP int -> the signal's type; int OP signal -> the signal's type;
+#                                      signal OP signal -> the LEFT type (a warning exactly when the names differ, not both are
+#                                      virtual and neither is implicit); anything else -> int with a warning
+#   infer_binary_op_type               bundle CMP x -> a comparison result on a fresh type (remembering the bundle);
+#                                      bundle OP signal/int -> a bundle with the same members (a copy); bundle OP anything else
+#                                      (another bundle, an entity) -> ERROR;  x CMP y -> a comparison result on the left signal's type
+#                                      if that is a virtual channel, else the right's, else a fresh one;  x && / || y -> on the left
+#                                      signal's type, else the right's, else fresh, a comparison result iff one side is;
+#                                      arithmetic / bitwise / power -> what _check_signal_type_compatibility says, its warning passed on
+# =================================================================================================
+_SIGT = ty.TObj("SignalTypeInfo", only=("SignalTypeInfo",), ftypes=(("name", ty.Str), ("is_virtual", ty.Bool), ("is_implicit", ty.Bool)))
+_VT2 = ty.TObj("ValueInfo", only=("IntValue", "SignalValue", "BundleValue", "EntityValue"),
+               ftypes=(("signal_type", _SIGT), ("is_comparison_result", ty.Bool), ("signal_types", ty.TConcrete({"signal-A", "signal-B"}))))
+
+
+def _virtual(info):
+    return Or(info.is_virtual, z3.PrefixOf(z3.StringVal("signal-"), info.name), z3.PrefixOf(z3.StringVal("__"), info.name))
+
+
+def _compat2_post(a, res):
+    l, r = a.left_type, a.right_type
+    if not (isinstance(res, tuple) and len(res) == 2):
+        return False
+    rt, warn = res
+    from pyvc.values import FStr
+    if warn is not None and not ((isinstance(warn, str) and warn) or (isinstance(warn, FStr) and any(isinstance(p, str) and p for p in warn.skeleton))):
+        return False   # a warning text is never empty (callers test its truthiness)
+    li, ls, ri, rs = isa(l, "IntValue"), isa(l, "SignalValue"), isa(r, "IntValue"), isa(r, "SignalValue")
+    if li is True and ri is True:
+        return isa(rt, "IntValue") is True and warn is None and rt is not l
+    if ls is True and ri is True:
+        return rt is l and warn is None
+    if li is True and rs is True:
+        return rt is r and warn is None
+    if ls is True and rs is True:
+        same = l.signal_type.name == r.signal_type.name
+        quiet = Or(same, And(_virtual(l.signal_type), _virtual(r.signal_type)), l.signal_type.is_implicit, r.signal_type.is_implicit)
+        return And(rt is l, quiet if warn is None else Not(quiet))
+    return isa(rt, "IntValue") is True and warn is not None
+
+
+CONTRACTS.append(Contract(
+    qualname=AN + "_check_signal_type_compatibility",
+    params={"self": _SELF, "left_type": _VT2, "right_type": _VT2, "op": ty.Str, "node": ty.TObj("BinaryOp", only=("BinaryOp",), ftypes=(("line", ty.Int),))},
+    ensures=[("int/int -> int; one signal -> that signal's type; two signals -> the left type, warned exactly for two different explicit non-virtual... names; else int + warning", _compat2_post)],
+    uses={"SemanticAnalyzer._is_virtual_channel": "inline"}, dynamic_types=_DYN, properties=("C01", "C14"), min_obligations=5, no_replay=True))
+
+BIN = {}
+
+
+def _bin_type(ex, a):
+    return ghost(a.expr, "type", _VT2)
+
+
+def _check_c(ex, a):
+    BIN.setdefault("check", []).append((a.left_type, a.right_type, a.op))
+    rt = ghost(ex.args_ns.expr, "checked_type", _VT2)
+    warn = ghost(ex.args_ns.expr, "warning", ty.TOpt(ty.Str))
+    if warn is not None:
+        ex.assume(z3.Length(warn) > 0)   # proved above: a warning text has a literal, non-empty part
+    return (rt, warn)
+
+
+def _bin_post(a, res):
+    e = a.expr
+    l, r = e.left._fields.get("@type"), e.right._fields.get("@type")
+    if l is None or r is None:
+        return False
+    op = e.op
+    cmp_ = Or(*[op == o for o in ("==", "!=", "<", "<=", ">", ">=")])
+    logical = Or(op == "&&", op == "||")
+    warned = BIN.get("warned", [])
+    if isa(l, "BundleValue") is True:
+        if isa(res, "BundleValue") is True and res is not l:
+            return And(Not(cmp_), Or(isa(r, "SignalValue"), isa(r, "IntValue")) if not isinstance(isa(r, "IntValue"), bool) else (isa(r, "IntValue") or isa(r, "SignalValue")),
+                       res.signal_types == l.signal_types and res.signal_types is not l.signal_types, len(ERR) == 0)
+        if res is l:   # refused: right side is neither a signal nor an integer (another bundle, an entity)
+            rbad = Not(Or(isa(r, "SignalValue"), isa(r, "IntValue"))) if not isinstance(isa(r, "IntValue"), bool) else not (isa(r, "IntValue") or isa(r, "SignalValue"))
+            return And(Not(cmp_), rbad, len(ERR) == 1)
+        return And(cmp_, isa(res, "SignalValue"), res.is_comparison_result is True, res.signal_type == z3.String("fresh_implicit_type"),
+                   e._fields.get("_bundle_comparison_source") is l, len(ERR) == 0)
+    checked = BIN.get("check", [])
+    if checked:
+        rt, warn = e._fields.get("@checked_type"), e._fields.get("@warning")
+        return And(Not(cmp_), Not(logical), len(checked) == 1 and checked[0][0] is l and checked[0][1] is r and checked[0][2] is op, res is rt,
+                   len(warned) == (0 if warn is None else 1), len(ERR) == 0)
+    ls, rs = isa(l, "SignalValue"), isa(r, "SignalValue")
+    lv = And(ls, _virtual(l.signal_type)) if ls is not False else False
+    rv = And(rs, _virtual(r.signal_type)) if rs is not False else False
+    st = res.signal_type
+    fresh = z3.String("fresh_implicit_type")
+    if ops.is_sym(st):
+        on = "fresh" if st.eq(fresh) else None
+    else:
+        on = "left" if (ls is not False and st is l.signal_type) else ("right" if (rs is not False and st is r.signal_type) else None)
+    if on is None:
+        return False
+    is_cmp_res = res.is_comparison_result
+    cmp_rule = {"left": lv, "right": And(Not(lv), rv), "fresh": And(Not(lv), Not(rv))}[on]
+    lc = And(ls, l.is_comparison_result) if ls is not False else False
+    rc = And(rs, r.is_comparison_result) if rs is not False else False
+    log_rule = {"left": ls, "right": And(Not(ls), rs), "fresh": And(Not(ls), Not(rs))}[on]
+    return And(isa(res, "SignalValue"), len(ERR) == 0,
+               Or(And(cmp_, cmp_rule, is_cmp_res is True or ops.eq(is_cmp_res, True)),
+                  And(Not(cmp_), logical, log_rule, ops.eq(is_cmp_res, Or(lc, rc)))))
+
+
+CONTRACTS.append(Contract(
+    qualname=AN + "infer_binary_op_type",
+    params={"self": _SELF, "expr": ty.TObj("BinaryOp", only=("BinaryOp",), ftypes=(("op", ty.Str), ("left", ty.TObj("Expr", only=("IdentifierExpr",))), ("right", ty.TObj("Expr", only=("IdentifierExpr",)))))},
+    requires=[("(reset capture)", lambda a: (BIN.clear(), _reset(a)) and True)],
+    ensures=[("bundle rules (comparison / same-member result / ERROR for a non-scalar right side); comparison and logical results on the left virtual, else right, else a fresh type; "
+              "arithmetic as _check_signal_type_compatibility says, warning passed on", _bin_post)],
+    uses={**_USES, "SemanticAnalyzer.get_expr_type": Contract(qualname=AN + "get_expr_type", params={"self": _OPQ, "expr": _OPQ}, effect=_bin_type, verify=False, note="type of an operand"),
+          "SemanticAnalyzer._check_signal_type_compatibility": Contract(qualname=AN + "_check_signal_type_compatibility",
+                                                                        params={"self": _OPQ, "left_type": _OPQ, "right_type": _OPQ, "op": _OPQ, "node": _OPQ}, effect=_check_c, verify=False,
+                                                                        note="proved above"),
+          "SemanticAnalyzer._emit_type_warning": Contract(qualname=AN + "_emit_type_warning", params={"self": _OPQ, "message": _OPQ, "node": _OPQ},
+                                                          effect=lambda ex, a: BIN.setdefault("warned", []).append(a.message), verify=False, note="a warning (does not stop compilation)"),
+          "SemanticAnalyzer._is_virtual_channel": "inline"},
+    dynamic_types=_DYN, properties=("C01", "C14", "C02"), min_obligations=6, no_replay=True))
